@@ -45,24 +45,29 @@ type Eql struct {
 // Call the function with the arguments provided.
 func (f *Eql) Call(s *slip.Scope, args slip.List, depth int) slip.Object {
 	slip.CheckArgCount(s, depth, f, args, 2, 2)
-	x := args[0]
-	y := args[1]
-	if eq(x, y) {
+	if eql(args[0], args[1]) {
 		return slip.True
+	}
+	return nil
+}
+
+func eql(x, y slip.Object) bool {
+	if eq(x, y) {
+		return true
 	}
 	switch tx := x.(type) {
 	case slip.Character:
-		if y.(slip.Character) == tx {
-			return slip.True
+		if ty, ok := y.(slip.Character); ok {
+			return tx == ty
 		}
 	case slip.String:
-		if x == y {
-			return slip.True
+		if ty, ok := y.(slip.String); ok {
+			return tx == ty
 		}
-	default:
-		if same(x, y) != nil {
-			return slip.True
+	case slip.Number:
+		if _, ok := y.(slip.Number); ok {
+			return same(x, y) != nil
 		}
 	}
-	return nil
+	return false
 }
